@@ -39,9 +39,17 @@ theorem tie_MaxPointError : @maxPointError = @ChordAngle_MaxPointError := by
 theorem tie_Expanded : @chordExpanded = @ChordAngle_Expanded := rfl
 
 /-! ### s2/point.go, s2/util.go -/
-theorem tie_PointCross : @pointCross = @Point_PointCross := by
+/-- `pointCrossMinNorm2 = 1.6052e-29` (repair D60): the hand constant is the regenerated one, and that is the decimal
+    literal rounded once to nearest even -/
+theorem tie_const_pointCrossMinNorm2 : pointCrossMinNorm2 = Point_PointCross_k0 := by decide +kernel
+theorem tie_const_pointCrossMinNorm2_decimal :
+    (Pred.Q.mk 16052 (10 ^ 33)).toF64 = pointCrossMinNorm2 := by decide +kernel
+/-- `PointCross` (repaired, D60): float value when `Norm2 >= pointCrossMinNorm2`, else the exact cross product through
+    `PreciseVector.Vector()`, `Ortho` only when the exact product `IsZero` -/
+theorem tie_PointCross : @pointCross = @Point_PointCross E := by
   funext p op
-  simp only [pointCross, Point_PointCross, tie_Vector_Ortho]
+  simp only [pointCross, pointCrossExact, Point_PointCross, tie_Vector_Ortho, tie_const_pointCrossMinNorm2, handExt,
+    toVector_e _ (-2148)]
   rfl
 theorem tie_ChordAngleBetweenPoints : @chordBetween = @ChordAngleBetweenPoints := rfl
 /-- `maxChordAngle(x, y)` = `if y > x then y else x` -/
@@ -49,46 +57,46 @@ theorem tie_maxChordAngle (x y : F64) : (if F64.gt y x then y else x) = maxChord
 theorem tie_minChordAngle (x y : F64) : (if F64.lt y x then y else x) = minChordAngle x [y] := rfl
 
 /-! ### s2/edge_distances.go -/
-theorem tie_interiorDist : @EdgeNum.interiorDist = @EdgeNumFns.interiorDist := by
+theorem tie_interiorDist : @EdgeNum.interiorDist = @EdgeNumFns.interiorDist E := by
   funext x a b minDist always
-  simp only [EdgeNum.interiorDist, tie_const_idC1, tie_const_idC2, tie_PointCross]
+  simp only [EdgeNum.interiorDist, tie_const_idC1, tie_const_idC2, tie_PointCross sin cos asin atan2]
   rfl
 
-theorem tie_updateMinDistance : @EdgeNum.updateMinDistance = @EdgeNumFns.updateMinDistance := by
+theorem tie_updateMinDistance : @EdgeNum.updateMinDistance = @EdgeNumFns.updateMinDistance E := by
   funext x a b minDist always
-  simp only [EdgeNum.updateMinDistance, EdgeNumFns.updateMinDistance, tie_interiorDist]
+  simp only [EdgeNum.updateMinDistance, EdgeNumFns.updateMinDistance, tie_interiorDist sin cos asin atan2]
   rfl
 
-theorem tie_UpdateMinDistance : @updateMinDistancePub = @UpdateMinDistance := by
+theorem tie_UpdateMinDistance : @updateMinDistancePub = @UpdateMinDistance E := by
   funext x a b minDist
-  simp only [updateMinDistancePub, UpdateMinDistance, tie_updateMinDistance]
+  simp only [updateMinDistancePub, UpdateMinDistance, tie_updateMinDistance sin cos asin atan2]
 
-theorem tie_IsDistanceLess : @isDistanceLess = @IsDistanceLess := by
+theorem tie_IsDistanceLess : @isDistanceLess = @IsDistanceLess E := by
   funext x a b limit
-  simp only [isDistanceLess, IsDistanceLess, tie_UpdateMinDistance]
+  simp only [isDistanceLess, IsDistanceLess, tie_UpdateMinDistance sin cos asin atan2]
 
-theorem tie_UpdateMinInteriorDistance : @updateMinInteriorDistance = @UpdateMinInteriorDistance := by
+theorem tie_UpdateMinInteriorDistance : @updateMinInteriorDistance = @UpdateMinInteriorDistance E := by
   funext x a b minDist
-  simp only [updateMinInteriorDistance, UpdateMinInteriorDistance, tie_interiorDist]
+  simp only [updateMinInteriorDistance, UpdateMinInteriorDistance, tie_interiorDist sin cos asin atan2]
 
-theorem tie_IsInteriorDistanceLess : @isInteriorDistanceLess = @IsInteriorDistanceLess := by
+theorem tie_IsInteriorDistanceLess : @isInteriorDistanceLess = @IsInteriorDistanceLess E := by
   funext x a b limit
-  simp only [isInteriorDistanceLess, IsInteriorDistanceLess, tie_UpdateMinInteriorDistance]
+  simp only [isInteriorDistanceLess, IsInteriorDistanceLess, tie_UpdateMinInteriorDistance sin cos asin atan2]
 
 /-- `DistanceFromSegment` = `ChordAngle.Angle` (libm asin) of the hand model's chord -/
 theorem tie_DistanceFromSegment (x a b : V3) :
     DistanceFromSegment E x a b = ChordAngle_Angle E (distanceFromSegmentChord x a b) := by
-  simp only [DistanceFromSegment, distanceFromSegmentChord, tie_updateMinDistance]
+  simp only [DistanceFromSegment, distanceFromSegmentChord, tie_updateMinDistance sin cos asin atan2]
   rfl
 
-theorem tie_UpdateMaxDistance : @updateMaxDistance = @UpdateMaxDistance := by
+theorem tie_UpdateMaxDistance : @updateMaxDistance = @UpdateMaxDistance E := by
   funext x a b maxDist
-  simp only [updateMaxDistance, UpdateMaxDistance, tie_updateMinDistance, tie_MaxPointError, tie_Expanded]
+  simp only [updateMaxDistance, UpdateMaxDistance, tie_updateMinDistance sin cos asin atan2, tie_MaxPointError, tie_Expanded]
   rfl
 
 theorem tie_Project : @project = @Project E := by
   funext x a b
-  simp only [project, Project, tie_PointCross]
+  simp only [project, Project, tie_PointCross sin cos asin atan2]
   rfl
 
 theorem tie_minUpdateInteriorDistanceMaxError :
@@ -110,13 +118,13 @@ theorem tie_crosses (a b c d : V3) : crosses a b c d = ((E).CrossingSign a b c d
 theorem tie_updateEdgePairMinDistance : @EdgeNum.updateEdgePairMinDistance = @EdgeNumFns.updateEdgePairMinDistance E := by
   funext a0 a1 b0 b1 minDist
   simp only [EdgeNum.updateEdgePairMinDistance, EdgeNumFns.updateEdgePairMinDistance, tie_crosses sin cos asin atan2,
-    tie_UpdateMinDistance]
+    tie_UpdateMinDistance sin cos asin atan2]
   rfl
 
 theorem tie_updateEdgePairMaxDistance : @EdgeNum.updateEdgePairMaxDistance = @EdgeNumFns.updateEdgePairMaxDistance E := by
   funext a0 a1 b0 b1 maxDist
   simp only [EdgeNum.updateEdgePairMaxDistance, EdgeNumFns.updateEdgePairMaxDistance, tie_crosses sin cos asin atan2,
-    tie_UpdateMaxDistance]
+    tie_UpdateMaxDistance sin cos asin atan2]
   rfl
 
 /-- the vertex selection of `EdgePairClosestPoints`: `closestVertex := 0; if ok1 { = 1 }; if ok2 { = 2 }; if ok3 { = 3 }`
@@ -134,14 +142,14 @@ theorem closest_sel {α : Type} [Inhabited α] (o1 o2 o3 : Bool) (A B C D : α) 
 theorem tie_EdgePairClosestPoints : @edgePairClosestPoints = @EdgePairClosestPoints E := by
   funext a0 a1 b0 b1
   simp only [edgePairClosestPoints, closestVertex, EdgePairClosestPoints, tie_crosses sin cos asin atan2,
-    tie_UpdateMinDistance, tie_updateMinDistance, tie_Project sin cos asin atan2,
+    tie_UpdateMinDistance sin cos asin atan2, tie_updateMinDistance sin cos asin atan2, tie_Project sin cos asin atan2,
     tie_Intersection sin cos asin atan2]
   split
   · rfl
-  · let m0 := (EdgeNumFns.updateMinDistance a0 b0 b1 zero_F64 true).1
-    let r1 := UpdateMinDistance a1 b0 b1 m0
-    let r2 := UpdateMinDistance b0 a0 a1 r1.1
-    let r3 := UpdateMinDistance b1 a0 a1 r2.1
+  · let m0 := (EdgeNumFns.updateMinDistance E a0 b0 b1 zero_F64 true).1
+    let r1 := UpdateMinDistance E a1 b0 b1 m0
+    let r2 := UpdateMinDistance E b0 a0 a1 r1.1
+    let r3 := UpdateMinDistance E b1 a0 a1 r2.1
     exact closest_sel (α := V3 × V3) r1.2 r2.2 r3.2 (a0, Project E a0 b0 b1) (a1, Project E a1 b0 b1)
       (Project E b0 a0 a1, b0) (Project E b1 a0 a1, b1)
 
@@ -156,7 +164,7 @@ theorem tie_DistanceFraction (x a b : V3) :
 theorem tie_InterpolateAtDistance (ax : F64) (a b : V3) :
     InterpolateAtDistance E ax a b =
       ((a.mul (cos ax)).add (((pointCross a b).cross a).mul (sin ax / ((pointCross a b).cross a).norm))).normalize := by
-  simp only [InterpolateAtDistance, tie_PointCross]
+  simp only [InterpolateAtDistance, tie_PointCross sin cos asin atan2]
   rfl
 /-- `Interpolate`: `t == 0` returns a, `t == 1` returns b (bitwise, as the C17 oracle checks), else
     `InterpolateAtDistance(t * a.Angle(b), a, b)` -/
